@@ -277,3 +277,22 @@ Example C07_quickmatch_unfixed_refuted :
               (encode amp_entry)) = amp_entry.
 Proof. exact quick_unfixed_refuted. Qed.
 Print Assumptions C07_quickmatch_unfixed_refuted.
+
+(** The whole entry through json.Marshal + decodeLogEntry comes back
+    unchanged ("returned ... with the client, question, answer, upstream and
+    filtering result it was recorded with", file part).  NOT proved as a
+    universal statement: what is proved is the string layer above (every
+    field text survives escaping + scanning) and the statement's instance
+    below; what is missing is the composition over the fields (scanning of
+    the number / literal tokens and the fold of the token decoder over the
+    fields of [encode e]).  The correspondence evaluates [encode] and [decode]
+    on every generated entry against the real encoder and decoder. *)
+Definition C07_codec_roundtrip_statement : Prop :=
+  forall o e, codec_dom o e -> decode o (encode e) = (false, e).
+
+Example C07_codec_roundtrip_example :
+  codec_dom all_true rich_entry /\
+  decode all_true (encode rich_entry) = (false, rich_entry) /\
+  has_bs (read_json_value (encode rich_entry) pQH) = true.
+Proof. exact (conj rich_entry_dom (conj (proj1 codec_roundtrip_example) (proj1 (proj2 codec_roundtrip_example)))). Qed.
+Print Assumptions C07_codec_roundtrip_example.
